@@ -46,6 +46,8 @@ type FuncContract struct {
 	Fields   []*Clause // reset-coverage classification (C11)
 	AbstractCallees []string // calls havocked while verifying this function
 	ModAny   bool // "modifies *": no frame is claimed
+	SplitParam string // enumerate this integer parameter over [SplitLo, SplitHi]
+	SplitLo, SplitHi int64
 	Resets   []*ResetClause
 	IndexAsserts []*CallSite // "index <slice expr>: assert P(idx)"
 }
@@ -598,6 +600,21 @@ func (w *World) parseContractFile(pkgPath, file string) error {
 				return fail(l.n, "clause outside func/lemma")
 			}
 		case "split":
+			if cur != nil {
+				// function: "split <param> lo..hi" verifies the body once per value
+				f := strings.Fields(rest)
+				if len(f) != 2 || !strings.Contains(f[1], "..") {
+					return fail(l.n, "expected 'split <param> lo..hi'")
+				}
+				b := strings.SplitN(f[1], "..", 2)
+				lo, err1 := strconv.ParseInt(b[0], 0, 64)
+				hi, err2 := strconv.ParseInt(b[1], 0, 64)
+				if err1 != nil || err2 != nil || hi < lo || hi-lo > 100000 {
+					return fail(l.n, "bad split range")
+				}
+				cur.SplitParam, cur.SplitLo, cur.SplitHi = f[0], lo, hi
+				continue
+			}
 			if curLemma == nil {
 				return fail(l.n, "split outside lemma")
 			}
